@@ -144,6 +144,13 @@ def _flags(g0, o0, n0, g1, o1, n1, g2, o2, n2, inverted, pos, up):
     ok = r.deleted_across == across and r.deleted == (before if assoc < 0 else after)
     if o > 0:
         ok = ok and r.deleted_before == before and r.deleted_after == after
+    elif r.deleted_before or r.deleted_after:
+        # a pure insertion deletes nothing, so no flag may be set; the library reports deleted_after at the insertion point
+        if pos == s and r.deleted_after and not r.deleted_before and not r.deleted and not r.deleted_across \
+                and rt.known_mode("C08-insertion-reports-deleted-after"):
+            pass
+        else:
+            ok = False
     kept_side = s if assoc < 0 else s + o
     ok = ok and ((r.recover is None) == (pos == kept_side))
     if r.recover is not None:
